@@ -64,3 +64,12 @@ pub struct ProgramInfo {
     /// runtime.
     pub target_assignments: Vec<OwnedTargetPath>,
 }
+
+#[cfg(vrl_verif)]
+impl Program {
+    /// verification hook: the compiled root block.
+    #[must_use]
+    pub fn verif_expressions(&self) -> &Block {
+        &self.expressions
+    }
+}
